@@ -142,7 +142,9 @@ def rand_string(rng, maxlen=6):
 
 ARG_TOKENS = [b"", b"-", b"--", b"-a", "-aé".encode(), b"--x", b"---x", b"a", "é b".encode(), b"-h", b"--help", "-€h😀".encode(), b"--=", b"x-y",
               # quoted tokens that start with dashes and contain blanks, digits after a dash, a lone dash followed by a blank
-              b"-a b", b"--long name", b"- item", "-б ".encode(), b"-- ", b"-1", b"-12", b"-007", b"--12", b" -x", b"a -b", b"-x1"]
+              b"-a b", b"--long name", b"- item", "-б ".encode(), b"-- ", b"-1", b"-12", b"-007", b"--12", b" -x", b"a -b", b"-x1",
+              # the help names in another letter case (they are NOT help), repeated characters in a cluster, runs of dashes
+              b"-H", b"--HELP", b"--Help", b"-vv", "-ééa".encode(), b"-aab", b"----", b"----x", "-----б".encode(), b"--a--b"]
 
 def quote_token(t):
     if t == b"" or b" " in t or b'"' in t or b"\\" in t:
@@ -208,7 +210,7 @@ def rand_writer_ops(rng, sep=";", kv=":"):
     return sep.join(ops) if ops else ("-" if sep == ";" else "")
 
 KEYS = {"left": b"\x1b[D", "right": b"\x1b[C", "up": b"\x1b[A", "down": b"\x1b[B", "bs": b"\x08", "tab": b"\t"}
-RAW_CMDS = [b"echo", b"nl", b"crlf", b"ln", b"mid", b"lnmid", b"fmt", b"prompt", b"quiet", b"empty", b"help", b"he", b"foo", b"x"]
+RAW_CMDS = [b"echo", b"nl", b"crlf", b"ln", b"mid", b"lnmid", b"fmt", b"prompt", b"quiet", b"empty", b"help", b"he", b"foo", b"x", b"HELP", b"Help", b"Echo"]
 
 def rand_do_line(rng, chars=None):
     """a line for the scripted `do` command: every argument is one handler action (writes of every flavour, literal format strings,
